@@ -409,16 +409,4 @@ theorem vPasses_get (c : Nat) : ∀ (m j i : Nat), i < m →
       congr 1
       omega
 
-/-- grid instance used to tie the volta tables to `add_segments`: lead-in of 4, section of 8, brackets of 4 -/
-def gridVoltaTm (pre : Bool) (i : Nat) : Int × Int :=
-  let b := vBody pre
-  if i < b then (0, 4)
-  else if i = b then (((4 * b : Nat) : Int), ((4 * b + 8 : Nat) : Int))
-  else (((4 * b + 8 + 4 * (i - b - 1) : Nat) : Int), ((4 * b + 8 + 4 * (i - b) : Nat) : Int))
-
-def gridVoltaTy (i : Nat) : SegType := if i = 0 then .leapEnd else .dflt
-
-/-- the volta layouts of `voltaTable` whose brackets carry one number each -/
-def voltaSingles : List VoltaCase := voltaTable.filter fun c => c.mult.all (· = 1)
-
 end C09
